@@ -29,7 +29,7 @@ ASSUMPTIONS = [
     "finite-difference Jacobians only in float64 and d<=3",
 ]
 
-BOUNDS = [(0.0, 1.0), (-1e-3, 1e-3), (-1e6, 1e6), (1e3, 1e3 + 1), (-5.0, 20.0)]
+BOUNDS = [(0.0, 1.0), (-1e-3, 1e-3), (-1e6, 1e6), (1e3, 1e3 + 1), (-5.0, 20.0), (0.0, 1e-4), (2.0, 2.0 + 1e-5)]  # the last two: widths near / below the clipping constant
 TS = [2e-6, 1e-3, 0.1, 0.5, 0.9, 1 - 1e-3, 1 - 2e-6]
 EPS = {"float64": 2.3e-16, "float32": 1.2e-7}
 CLIP = 1e-6
@@ -316,7 +316,8 @@ def run_spec(arg):
 
 def run_wrap(arg):
     """Periodic wrapping on any real number."""
-    (lo, hi), ns, dt, via = arg
+    (lo, hi), ns, dt, via = arg[:4]
+    batch = arg[4] if len(arg) > 4 else "mixed"
     from aspire import transforms as T
 
     r = Report()
@@ -325,7 +326,10 @@ def run_wrap(arg):
     P = hi - lo
     vals = [lo, hi, lo - 1e-20, hi + 1e-20, lo - 1e-9 * max(1, abs(lo)), hi + 1e-9 * max(1, abs(hi)), lo - 0.25 * P, hi + 0.25 * P,
             lo + P, lo - P, lo + 2 * P, lo - 2 * P, lo + 1000 * P, lo - 1000 * P, 1e12, -1e12, lo + 0.5 * P, lo + 1e-12 * P]
-    case = {"bounds": [lo, hi], "ns": ns, "dtype": dt, "via": via}
+    if batch == "in-range":
+        # only values of the closed interval (both end points included): the image of a point does not depend on its batch
+        vals = [lo, hi, lo + 0.5 * P, lo + 1e-12 * P, lo + 0.999 * P]
+    case = {"bounds": [lo, hi], "ns": ns, "dtype": dt, "via": via, "batch": batch}
     try:
         if via == "periodic":
             tr = T.PeriodicTransform(lower=np.array([lo]), upper=np.array([hi]), xp=xp, dtype=dtype)
@@ -431,7 +435,8 @@ def specs(tier):
                         continue
                     out.append({"kind": kind, "d": d, "bounds": bs, "batch": batch})
     for d in (1, 2, 3):
-        persets = [[], [0]] + ([list(range(d))] if d > 1 else [])
+        # the last one lists the periodic parameters in another order than the parameters themselves
+        persets = [[], [0]] + ([list(range(d))] if d > 1 else []) + ([list(range(d))[::-1]] if d > 1 else [])
         for per, b2u, bt, affine in itertools.product(persets, (True, False), ("logit", "probit"), (True, False)):
             if not b2u and bt == "probit":
                 continue
@@ -485,6 +490,8 @@ def run(tier, seed, workers):
             for dt in ("float64", "float32"):
                 for via in ("periodic", "composite", "composite-int"):
                     jobs.append(("run_wrap", (b, ns, dt, via)))
+                    if via != "composite-int":
+                        jobs.append(("run_wrap", (b, ns, dt, via, "in-range")))
     for ns in ("numpy", "torch"):
         for b2u, affine in ((True, False), (True, True), (False, True)) if tier == "thorough" else ((True, False), (False, True)):
             jobs.append(("run_flow_precond", (ns, b2u, affine, 0)))
@@ -513,5 +520,5 @@ def replay(case):
     elif case.get("kind") == "flow-preconditioning":
         r.merge(run_flow_precond((case["ns"], case["b2u"], case["affine"], case["seed"])))
     else:
-        r.merge(run_wrap((tuple(case["bounds"]), case["ns"], case["dtype"], case["via"])))
+        r.merge(run_wrap((tuple(case["bounds"]), case["ns"], case["dtype"], case["via"], case.get("batch", "mixed"))))
     return r
